@@ -1,2 +1,129 @@
-(* C93 -- development copy of C03 for the enlarged tag language (placeholder) *)
-From LiquidVerif Require Import Prelude Recover2.
+(* C93 -- Lax and warn modes suppress errors without changing correct output.  Property theorems only.
+   The model (Recover2.v; all standard tags and the liquid.extra tags) is the parser's and the render loop's error handling under Mode.STRICT / WARN / LAX over the token
+   stream of the template lexer; a log records the warnings a run emitted and the errors Environment.error did not re-raise. *)
+From Coq Require Import String.
+From LiquidVerif Require Import Prelude Recover2 Recover2_Proofs.
+Local Open Scope string_scope. Local Open Scope list_scope.
+
+(* lax mode: EVERY token stream parses, whatever the block nesting limit, and no warning is issued *)
+Theorem C93_lax_parse_total : forall lim ts, exists b l, parse Lax lim ts = Ok (b, l) /\ emitted l = [].
+Proof. exact lax_parse_total. Qed.
+Print Assumptions C93_lax_parse_total.
+
+(* lax mode: rendering any parse tree finishes with output and no warning; the only exception that can leave it is a
+   non-Liquid one raised by an expression (those are outside this property, see C02) *)
+Theorem C93_lax_render_total : forall b,
+  (exists t l, render Lax b = Ok (t, l) /\ emitted l = []) \/ (exists e, render Lax b = Err e /\ is_liquid e = false).
+Proof. exact lax_render_total. Qed.
+Print Assumptions C93_lax_render_total.
+
+(* the whole run in lax mode never ends in a Liquid error and never warns *)
+Theorem C93_lax_never_raises_liquid : forall lim ts,
+  match run_recover (mk_case Lax lim ts) with
+  | OOut _ n => n = 0
+  | ORenderErr e => is_liquid e = false
+  | _ => False
+  end.
+Proof. exact run_lax_never_raises_liquid. Qed.
+Print Assumptions C93_lax_never_raises_liquid.
+
+(* warn mode parses to the same tree as lax mode, and its warnings are exactly the errors lax mode suppressed, in order *)
+Theorem C93_warn_is_lax_plus_warnings : forall lim ts,
+  exists b l, parse Lax lim ts = Ok (b, l) /\ emitted l = [] /\
+              parse Warn lim ts = Ok (b, {| emitted := suppressed l; suppressed := suppressed l |}).
+Proof. exact warn_parse_is_lax_parse. Qed.
+Print Assumptions C93_warn_is_lax_plus_warnings.
+
+(* ... and renders to the same text, again with one warning per suppressed error, in order *)
+Theorem C93_warn_render_is_lax_plus_warnings : forall b,
+  (exists t l, render Lax b = Ok (t, l) /\ emitted l = [] /\
+               render Warn b = Ok (t, {| emitted := suppressed l; suppressed := suppressed l |})) \/
+  (exists e, render Lax b = Err e /\ render Warn b = Err e /\ is_liquid e = false).
+Proof. exact warn_render_is_lax_render. Qed.
+Print Assumptions C93_warn_render_is_lax_plus_warnings.
+
+(* the observable form: same text, and the number of warnings is the number of errors suppressed while parsing and rendering *)
+Theorem C93_warn_run_is_lax_run : forall lim ts,
+  exists b l1, parse Lax lim ts = Ok (b, l1) /\
+    match render Lax b with
+    | Ok (t, l2) => run_recover (mk_case Lax lim ts) = OOut t 0 /\
+                    run_recover (mk_case Warn lim ts) = OOut t (List.length (suppressed l1) + List.length (suppressed l2))
+    | Err e => run_recover (mk_case Lax lim ts) = ORenderErr e /\ run_recover (mk_case Warn lim ts) = ORenderErr e /\ is_liquid e = false
+    | OutOfFuel => False
+    end.
+Proof. exact run_warn_is_lax. Qed.
+Print Assumptions C93_warn_run_is_lax_run.
+
+(* a source that parses in strict mode parses to the same tree in every mode, with nothing suppressed and nothing warned *)
+Theorem C93_strict_parse_invariant : forall lim ts b l,
+  parse Strict lim ts = Ok (b, l) -> l = log0 /\ forall m, parse m lim ts = Ok (b, log0).
+Proof. exact strict_parse_invariant. Qed.
+Print Assumptions C93_strict_parse_invariant.
+
+(* a tree that renders in strict mode renders to the same text in every mode, with nothing suppressed and nothing warned *)
+Theorem C93_strict_render_invariant : forall b t l,
+  render Strict b = Ok (t, l) -> l = log0 /\ forall m, render m b = Ok (t, log0).
+Proof. exact strict_render_invariant. Qed.
+Print Assumptions C93_strict_render_invariant.
+
+(* together: a template that parses and renders without error in strict mode gives the same output, without warnings, in every mode *)
+Theorem C93_strict_success_invariant : forall lim ts t n,
+  run_recover (mk_case Strict lim ts) = OOut t n -> n = 0 /\ forall m, run_recover (mk_case m lim ts) = OOut t 0.
+Proof. exact run_strict_invariant. Qed.
+Print Assumptions C93_strict_success_invariant.
+
+(* the parser's loops always advance: with one unit of fuel more than there are tokens (those inside liquid tags included) no mode ever runs out (also C09) *)
+Theorem C93_parse_progress : forall m lim f ts, S (tsize ts) <= f -> parse_fuel m lim f ts <> OutOfFuel.
+Proof. exact parse_progress. Qed.
+Print Assumptions C93_parse_progress.
+
+(* ---- non-vacuity and reading aids (tests, not theorems) ---- *)
+Definition s (x : String.string) : str := slit x.
+Definition tv (n : nat) : tok := TExpr (XOk (RVal [] n)).
+
+(* {% if p %}A{% elsif q %}B{% else %}C{% endif %}D with p false, q true: strict succeeds, all modes agree *)
+Example C93_strict_example :
+  let ts := [TTag Nif; tv 0; TContent (s "A"); TTag Nelsif; tv 1; TContent (s "B"); TTag Nelse; TContent (s "C"); TTag Nendif; TContent (s "D")] in
+  run_recover (mk_case Strict 30 ts) = OOut (s "BD") 0 /\ run_recover (mk_case Warn 30 ts) = OOut (s "BD") 0.
+Proof. vm_compute. split; reflexivity. Qed.
+
+(* {% if p %}A{% elsif %}B{% else %}C{% endif %}D: the elsif recovery; strict raises, warn warns twice (elsif, stray endif), lax is silent *)
+Example C93_elsif_recovery_example :
+  let ts := [TTag Nif; tv 1; TContent (s "A"); TTag Nelsif; TContent (s "B"); TTag Nelse; TContent (s "C"); TTag Nendif; TContent (s "D")] in
+  run_recover (mk_case Strict 30 ts) = OParseErr ESyntax /\
+  run_recover (mk_case Warn 30 ts) = OOut (s "CD") 2 /\ run_recover (mk_case Lax 30 ts) = OOut (s "CD") 0.
+Proof. vm_compute. repeat split; reflexivity. Qed.
+
+(* {% assign %}hello: the failed tag has already stepped onto the text, which the loop then skips *)
+Example C93_lax_swallows_token_after_bare_assign :
+  run_recover (mk_case Lax 30 [TTag Nassign; TContent (s "hello")]) = OOut [] 0.
+Proof. vm_compute. reflexivity. Qed.
+
+(* a block nesting error leaves block_depth incremented: with limit 1, the second top-level if fails too *)
+Example C93_nesting_error_leaks_depth :
+  let i := [TTag Nif; tv 1] in let e := [TTag Nendif] in
+  run_recover (mk_case Warn 1 (i ++ i ++ [TContent (s "a")] ++ e ++ [TContent (s "b")] ++ e ++ i ++ [TContent (s "c")] ++ e)) = OOut (s "b") 2.
+Proof. vm_compute. reflexivity. Qed.
+
+(* a strict-only check: accepted silently by warn and lax, rejected by strict *)
+Example C93_strict_only_example :
+  let ts := [TOutput; TExpr (XStrictOnly (RVal (s "S") 1))] in
+  run_recover (mk_case Strict 30 ts) = OParseErr ESyntax /\ run_recover (mk_case Warn 30 ts) = OOut (s "S") 0.
+Proof. vm_compute. split; reflexivity. Qed.
+
+(* a malformed macro tag has no end tag to recover to (Tag.end is the empty string): everything after it is dropped *)
+Example C93_bad_macro_swallows_the_rest :
+  run_recover (mk_case Lax 30 [TContent (s "a"); TTag Nmacro; TContent (s "b"); TTag Nendmacro; TContent (s "c")]) = OOut (s "a") 0.
+Proof. vm_compute. reflexivity. Qed.
+
+(* a liquid tag: the inner unknown line is dropped, the rest of the block survives; an unclosed inner if drops what follows it *)
+Example C93_liquid_example :
+  let e := [TTag Necho; TExpr (XOk (RVar (s "O") 1))] in
+  run_recover (mk_case Warn 30 [TTag Nliquid; TLiquid (Some (e ++ [TTag Nunknown] ++ e))]) = OOut (s "OO") 1 /\
+  run_recover (mk_case Warn 30 [TTag Nliquid; TLiquid (Some (e ++ [TTag Nif; TExpr (XOk (RVar [] 1))] ++ e))]) = OOut (s "O") 1.
+Proof. vm_compute. split; reflexivity. Qed.
+
+(* translate: an inner error is suppressed, then the message validation rejects the IllegalNode it left: two warnings *)
+Example C93_translate_example :
+  run_recover (mk_case Warn 30 [TTag Ntranslate; TContent (s "a"); TTag Nunknown; TTag Nendtranslate; TContent (s "b")]) = OOut (s "b") 2.
+Proof. vm_compute. reflexivity. Qed.
